@@ -252,6 +252,35 @@ def _p1_search(bi: int, qi: int, wi: int, which: int):
     cover('ok')
 
 
+def p2_reuse(o0: int, o1: int, o2: int):
+    """pattern OBJECTS reused under several wrappers: the answers (match / no match, tags) of every use equal those of freshly built patterns, whatever
+    was matched before with the shared parts (a match never depends on previous match calls)"""
+    assume(0 <= o0 <= 5 and 0 <= o1 <= 5 and 0 <= o2 <= 5)
+    order = [pc.pin(o0, 0, 5), pc.pin(o1, 0, 5), pc.pin(o2, 0, 5)]
+
+    def build():
+        name = M(MName(), is_name=True)
+        call = M(MCall(func=name), is_call=True)
+        alt = MOR(M(MAttribute(value=name), is_attr=True), name)
+        lst = M(MList(elts=[MQSTAR(t=name), MQSTAR]), is_list=True)
+        return [name, call, alt, lst, M(nm=name), MAND(name, M(second=...))]
+    targets = ['f()', 'x', 'a.b', '[p, q, 1]', 'g(1)', 'h']
+    shared = build()
+
+    def tagsof(m):
+        return None if m is None else sorted((k, (len(v) if isinstance(v, list) else type(v).__name__ if hasattr(v, 'a') else repr(v))) for k, v in m.tags.items())
+    for oi in order:
+        pat = shared[oi]
+        for tsrc in targets:
+            with pc.untraced():
+                tgt = FST(tsrc, 'exec').body[0].value
+                fresh = build()[oi]
+            got = tagsof(pat.match(tgt))
+            exp = tagsof(fresh.match(tgt))
+            check(got == exp, 'match.depends_on_previous_matches_with_shared_subpatterns', (oi, tsrc, got, exp, order))
+    cover('ok')
+
+
 FNM = ['fst.match._match__inside_list', 'fst.match._match__inside_list_quantifier', 'fst.match.MQ.__init__', 'fst.match._match_str', 'fst.match._match_primitive',
        'fst.match._match_node', 'fst.match._match_type']
 SKELETONS = [('a', '.'), ('.', 'a'), ('a', 'lit:b', '.'), ('.', 'lit:b', 'a'), (('a', 'b'), '.'), ('.', ('a', 'b')), ('a',), (('a', 'b'),)]
@@ -286,3 +315,5 @@ for _wi, (_wn, _wf) in enumerate(WRAPS):
                       f'{len(BASE_PATS)} base patterns x {len(BASE_PATS)} partner patterns under combinator wrapper {_wn} (finite choice, solver-enumerated) on a 4-line carrier, '
                       'its re-laid-out version and its pure AST', budget=900, per_path=120, out='patterns outside the table; MRE source-text patterns (excluded by the property)',
                       reset=pc.reset_globals))
+CELLS.append(Cell('P2.reuse', p2_reuse, 'P', ['fst.match.M._match', 'fst.match._MatchState.pop_merge_tagss'], '6 pattern objects sharing sub-patterns with static tags, used in a symbolic order of 3 (6^3 histories) on 6 targets: every answer equals that of freshly built patterns',
+                  budget=600, per_path=60, reset=pc.reset_globals))
